@@ -242,9 +242,18 @@ def used_as_modelled(data, bases, mirror, ep):
     return all(0 <= i < N for i in ep["negIdx"]) and negs == [tuple(data[i]) for i in ep["negIdx"]]
 
 
-def effect_oracle(data, bases, B, negB_eff, mirror, batches):
+# level of the "fit trains on a snapshot" tie (audit 3, B-8): not a statement of the property (no property-level verdict); kept as the
+# model-code tie of C07_train_samples_value's fresh-storage clause so that the stored no-clone change M5_C07_2 stays visible as
+# "no-failing-input-found"; set to "info" to silence it altogether
+AFTER_WRITE_LEVEL = "aux"
+
+
+def effect_oracle(data, bases, B, negB_eff, mirror, batches, alt=None):
     """the property judged by EFFECT alone: `batches` = [(pos, neg, basesbatch|None)] actually handed to compute_batch_gradients in one epoch.
-    No reference to how the randomness was drawn. returns (ok, detail)"""
+    No reference to how the randomness was drawn. returns (ok, detail).
+    alt (audit 3, B-8): the rows the CALLER wrote into its own data object during the running fit; for the epochs after that write "the training
+    data" may be read either way (the rows handed over, or the rows the caller's object holds now): the property does not say fit snapshots"""
+    datas = [data] + ([alt] if alt is not None else [])
     N = len(data)
     nb = -(-N // B)
     if len(batches) != nb:
@@ -253,7 +262,7 @@ def effect_oracle(data, bases, B, negB_eff, mirror, batches):
     if sizes[:-1] != [B] * (nb - 1) or sizes[-1] != N - (nb - 1) * B or not (1 <= sizes[-1] <= B):
         return False, f"batch sizes {sizes}"
     flat = [tuple(r) for p, _, _ in batches for r in p]
-    if collections.Counter(flat) != collections.Counter(tuple(r) for r in data):
+    if not any(collections.Counter(flat) == collections.Counter(tuple(r) for r in d_) for d_ in datas):
         return False, "positive batches are not a permutation (as a multiset) of the data rows"
     if bases is not None:
         if any(bb is None for _, _, bb in batches):
@@ -261,14 +270,14 @@ def effect_oracle(data, bases, B, negB_eff, mirror, batches):
         if [len(bb) for _, _, bb in batches] != sizes:
             return False, "bases batch sizes differ from sample batch sizes"
         flatb = [tuple(r) for _, _, bb in batches for r in bb]
-        if collections.Counter(zip(flat, flatb)) != collections.Counter((tuple(d), tuple(b)) for d, b in zip(data, bases)):
+        if not any(collections.Counter(zip(flat, flatb)) == collections.Counter((tuple(d), tuple(b)) for d, b in zip(d_, bases)) for d_ in datas):
             return False, "some row is not paired with its own basis row"
-        zrows = {tuple(d) for d, b in zip(data, bases) if all(c == "Z" for c in b)}
+        zrows = {tuple(d) for d_ in datas for d, b in zip(d_, bases) if all(c == "Z" for c in b)}
         for _, ng, _ in batches:
             if len(ng) != negB_eff or any(tuple(r) not in zrows for r in ng):
                 return False, "negative batch not neg_batch_size reference-basis rows"
     else:
-        allrows = {tuple(r) for r in data}
+        allrows = {tuple(r) for d_ in datas for r in d_}
         for p, ng, bb in batches:
             if bb is not None:
                 return False, "bases batch without bases"
@@ -541,7 +550,9 @@ def one_call(ctx, case, st, kind, run, r_idx, state):
                   + ": batch-by-batch comparison with the model skipped, verdict from the effect oracle")
         for e_i, ep in enumerate(eps):
             # the property judged by effect (no reference to the random draws)
-            ok, detail = effect_oracle(data, bases, B, negB_eff, mirror, ep["batches"])
+            # epochs after the caller's own in-place write: either reading of "the training data" satisfies the property (audit 3, B-8)
+            alt = scr.get("new_rows") if (scr["done"] and scr["possible"] and e_i > scr["epoch"]) else None
+            ok, detail = effect_oracle(data, bases, B, negB_eff, mirror, ep["batches"], alt=alt)
             ctx.oracle("epoch batches satisfy the property (by effect: partition with own bases, sizes, negative rows from the allowed pool)", ok,
                        {**case, "epoch": e_i}, detail=detail, sig=f"{sig}/property", theorem="C07_partition, C07_own_basis, C07_sizes, C07_negative")
             if ep["as_modelled"] and ep["randint"] is not None:
@@ -574,7 +585,9 @@ def one_call(ctx, case, st, kind, run, r_idx, state):
         mc = ctx.driver.call("c07.fit_convert", default_double=(torch.get_default_dtype() == torch.double), box=box, rows=data_at_call, bases=bases,
                              posB=B, negB=neg, write_rows=scr.get("new_rows"))
         if "error" in mc:
-            ctx.point("model refuses a data object the implementation trained on", "property", None, mc["error"], case, exact=True, sig=f"{sig}/convert-refused",
+            # audit 3, B-12: a MODEL refusal (or a parse failure of the driver) on a run the implementation completed is a defect of the
+            # correspondence, not a failing input of the property: auxiliary
+            ctx.point("model refuses a data object the implementation trained on", "aux", None, mc["error"], case, exact=True, sig=f"{sig}/convert-refused",
                       theorem="C07_train_samples_value")
         elif eps:
             srt = lambda rows: sorted([int(x) for x in r] for r in rows)  # noqa: E731
@@ -587,11 +600,16 @@ def one_call(ctx, case, st, kind, run, r_idx, state):
             if scr["done"] and scr["possible"] and len(eps) > scr["epoch"] + 1:
                 later = [r for p_, _, _ in eps[-1]["batches"] for r in p_]
                 ctx.count("rows of an epoch AFTER the caller's in-place overwrite compared with the model's train_samples after the same write")
+                # audit 3, B-8: the property says "never modifies the caller's data" and "every row once per epoch" (both judged above, by
+                # effect), NOT that fit snapshots the data: a conversion without a copy (data.to(double), torch.as_tensor) keeps the property.
+                # What remains is the tie of the model's "train_samples lives in a storage of its own" clause to the code: AFTER_WRITE_LEVEL
                 ctx.point("rows fit trains on AFTER the caller overwrote its data object in place = still the rows handed to fit (train_samples lives in a "
-                          "storage of its own)", "property", srt(later), srt(mc["train_after_write"]), case, exact=True, sig=f"{sig}/train-rows-after-write/{box}",
-                          theorem="C07_train_samples_value")
-            ctx.point("model: train_samples in a fresh storage, caller's storages unwritten", "aux", True, bool(mc["fresh"] and mc["caller_unchanged"]), case, exact=True,
-                      sig=f"{sig}/convert-frame", theorem="C07_train_samples_value")
+                          "storage of its own)", AFTER_WRITE_LEVEL, srt(later), srt(mc["train_after_write"]), case, exact=True, sig=f"{sig}/train-rows-after-write/{box}",
+                          theorem="C07_train_samples_value") if AFTER_WRITE_LEVEL != "info" else ctx.info(
+                    f"{kind}/fit: rows of an epoch after the caller's in-place overwrite = the rows handed to fit ({box})", srt(later), srt(mc["train_after_write"]))
+            # audit 3, B-18: a statement about the MODEL alone (the implementation side was the constant True) ties nothing to the code: counter
+            ctx.count("model frame of fit_convert (train_samples in a fresh storage, caller's storages unwritten): " +
+                      ("holds" if mc["fresh"] and mc["caller_unchanged"] else "FAILS (model defect)"))
     if not expect_error and not scripted:
         # the model (QV.Batching.shuffleData) takes the randperm / randint results as inputs: when the code draws its randomness differently the
         # theorems can no longer be tied to it. Reported ONCE per run as a broken CORRESPONDENCE (auxiliary point, stable signature); the property
@@ -629,6 +647,12 @@ def one_call(ctx, case, st, kind, run, r_idx, state):
         if len(eps) > 6 and e_i not in (0, 1, len(eps) // 2, len(eps) - 1):
             continue  # long default runs: the model is compared on 4 epochs, the effect oracles ran on every epoch
         c2 = {**case, "epoch": e_i}
+        if scr["done"] and scr["possible"] and e_i > scr["epoch"] and \
+                collections.Counter(tuple(r) for p_, _, _ in ep["batches"] for r in p_) != collections.Counter(tuple(r) for r in data):
+            # audit 3, B-8: after the caller's own write this epoch batches the rows the caller's object holds NOW (no snapshot): the property
+            # was judged by the effect oracle above (either reading); the batching model is fed the rows handed over and does not apply
+            ctx.count("epoch after the caller's in-place write batches the caller's current rows (no snapshot): model batch comparison skipped")
+            continue
         m = ctx.driver.call("c07.epoch", data=data, bases=bases, posB=B_m, negB=neg_m, perm=ep["perm"], negIdx=ep["negIdx"])
         mo = m["out"]
         if "error" in mo or "error" in m["prep"]:
